@@ -89,10 +89,10 @@ fn repr_cmp_same_base<const B: Word, const ABS: bool>(
     if let Some((lhs_prec, rhs_prec)) = precision {
         // only compare when both number are not having arbitrary precision
         if lhs_prec != 0 && rhs_prec != 0 {
-            if lhs_exp > rhs_exp + rhs_prec as isize {
+            if lhs_exp > rhs_exp.saturating_add(rhs_prec as isize) {
                 return sign * Ordering::Greater;
             }
-            if rhs_exp > lhs_exp + lhs_prec as isize {
+            if rhs_exp > lhs_exp.saturating_add(lhs_prec as isize) {
                 return sign * Ordering::Less;
             }
         }
@@ -100,10 +100,10 @@ fn repr_cmp_same_base<const B: Word, const ABS: bool>(
 
     // case 5: compare exponent and digits
     let (lhs_digits, rhs_digits) = (lhs.digits_ub(), rhs.digits_ub());
-    if lhs_exp > rhs_exp + rhs_digits as isize {
+    if lhs_exp > rhs_exp.saturating_add(rhs_digits as isize) {
         return sign * Ordering::Greater;
     }
-    if rhs_exp > lhs_exp + lhs_digits as isize {
+    if rhs_exp > lhs_exp.saturating_add(lhs_digits as isize) {
         return sign * Ordering::Less;
     }
 
